@@ -309,5 +309,5 @@ MANIFEST = {
             "breakage of the comparison key within seconds; cannot prove absence.",
     "note": "Trusts packaging.version 26.x as the PEP 440 reference. Legacy-vs-legacy order is only checked "
             "for the preorder laws, as the property does not prescribe it.",
-    "technique": "property-based testing (Hypothesis), differential oracle vs packaging.version + order laws",
+    "technique": "property-based testing (Hypothesis), differential oracle vs packaging.version + order laws; plus coverage-guided fuzzing (atheris/libFuzzer) of the same byte decoder and oracle",
 }
